@@ -794,6 +794,47 @@ func ruleQ8(c *Ctx) {
 	c.check(n >= 6, "Q8", "conditions", token.NoPos, fmt.Sprintf("%d side-bearing branch conditions inspected (frozen minimum 6)", n))
 }
 
+// Q9: the parsing wrappers add no comparison logic of their own. Every return of URIParamsEq / URIHdrsEq hands back
+// either the constant false (a parse error) or the result of the list comparison (URIParamsLstEq / URIHdrsLstEq) on
+// the two freshly parsed lists — never a constant true or a shortcut computed from the lists.
+func ruleQ9(c *Ctx) {
+	n := 0
+	for wrapper, inner := range map[string]string{"URIParamsEq": "URIParamsLstEq", "URIHdrsEq": "URIHdrsLstEq"} {
+		fn := c.SFuncs[wrapper]
+		if fn == nil {
+			c.fail("Q9", wrapper, token.NoPos, "not found")
+			continue
+		}
+		cnt, viaInner := 0, 0
+		for _, b := range fn.Blocks {
+			ret, ok := b.Instrs[len(b.Instrs)-1].(*ssa.Return)
+			if !ok || len(ret.Results) < 1 {
+				continue
+			}
+			cnt++
+			n++
+			okR := false
+			what := ""
+			switch x := ret.Results[0].(type) {
+			case *ssa.Const:
+				okR = x.Value != nil && x.Value.String() == "false"
+				what = "constant " + x.Value.String()
+			case *ssa.Call:
+				if cal := x.Call.StaticCallee(); cal != nil && cal.Name() == inner {
+					okR = true
+					viaInner++
+				}
+				what = "a call result"
+			default:
+				what = "a computed value"
+			}
+			c.check(okR, "Q9", fmt.Sprintf("%s:return#%d", wrapper, cnt), ret.Pos(), "this return hands back false (parse error) or the result of "+inner+"() — it is "+what)
+		}
+		c.check(viaInner >= 1, "Q9", wrapper+":delegates", fn.Pos(), wrapper+" returns the result of "+inner+" on its success path")
+	}
+	c.check(n >= 6, "Q9", "returns", token.NoPos, fmt.Sprintf("%d returns of the two parsing wrappers inspected (frozen minimum 6)", n))
+}
+
 func init() {
 	register(&PropDef{
 		ID: "C15",
@@ -803,6 +844,7 @@ func init() {
 			{"Q3", "component -> comparator table: type/port ==, user/password bytes.Equal, host and parameter/header names and values CmpEq; URIParamResolve's six names under their own length cases via CmpEq; type flags distinct bits", ruleQ3},
 			{"Q4", "the boolean result of URICmp (URICmpShort inlined) tabulated over all assignments of comparison and flag atoms is monotone non-decreasing in each of the six skip flags, every comparison is needed when nothing is skipped, and each flag guards the component it names", ruleQ4},
 			{"Q6", "the raw list comparisons parse into fixed-capacity temporary arrays: the overflow indicator of both lists must be consulted, otherwise elements beyond the capacity are dropped silently and the verdict depends on element order", ruleQ6},
+			{"Q9", "the parsing wrappers URIParamsEq / URIHdrsEq add no comparison logic: every return hands back the constant false (parse error) or the result of URIParamsLstEq / URIHdrsLstEq — no constant true, no shortcut", ruleQ9},
 			{"Q8", "the pairwise list comparisons treat their two lists alike: in URIParamsLstEq / URIHdrsLstEq every side-bearing branch condition is a commutative comparison of mirror-image operands, a loop bound, or a one-sided look at a quantity already equated on both sides by a dominating two-sided equality — no test of one list's value alone", ruleQ8},
 			{"Q7", "URIHdrsLstEq: equal counts are required before the one-directional containment loop (necessary for symmetry), and a missing header returns false", ruleQ7},
 			{"Q5", "the must-be-in-both mask is exactly user|ttl|method|maddr and is tested before the pairwise loop", ruleQ5},
